@@ -10,3 +10,4 @@ import Dashu.Props.GenShiftHeap
 #print axioms Dashu.Props.GenShiftHeap.gen_shr_large
 #print axioms Dashu.Props.GenShiftHeap.gen_shr_large_ref
 #print axioms Dashu.Props.GenShiftHeap.gen_shr_heap_forms
+#print axioms Dashu.Props.GenShiftHeap.gen_shl_dword_repr
